@@ -421,4 +421,195 @@ theorem parse_stmt_tokens (names : Nat → List Char) (srcLen : Nat) (tbl : SymT
   | blkw n => cases hs
   | stringz b => cases hs
 
+/-! ### AIR → specification -/
+
+theorem sw85 (w : Word) : (w.setWidth 8).setWidth 5 = w.setWidth 5 := by
+  apply BitVec.eq_of_toNat_eq
+  simp only [BitVec.toNat_setWidth]
+  omega
+
+theorem sw86 (w : Word) : (w.setWidth 8).setWidth 6 = w.setWidth 6 := by
+  apply BitVec.eq_of_toNat_eq
+  simp only [BitVec.toNat_setWidth]
+  omega
+
+theorem lit_target (orig : Word) (line : Nat) (w : Word) :
+    addrOf orig ((line + 1 + w.toNat) % 65536) = addrOf orig line + 1 + w := by
+  unfold addrOf
+  have : BitVec.ofNat 16 ((line + 1 + w.toNat) % 65536) = BitVec.ofNat 16 line + 1 + w := by
+    apply BitVec.eq_of_toNat_eq
+    simp [BitVec.toNat_add, BitVec.toNat_ofNat]
+  rw [this]
+  grind
+
+theorem lit_distance (a w : Word) : pcDistance a (a + 1 + w) = w.toInt := by
+  unfold pcDistance
+  have : a + 1 + w - (a + 1) = w := by grind
+  rw [this]
+
+theorem flagOf_bits {nzp : BitVec 3} {f : Flag} (h : flagOf nzp = some f) : f.bits.setWidth 3 = nzp := by
+  revert nzp f; decide
+
+/-- a literal offset can be encoded iff it fits the field -/
+theorem pcField_lit_isSome (bits : Nat) (a w : Word) :
+    (pcField bits a (a + 1 + w)).isSome = fitsSigned bits w := by
+  unfold pcField fitsSigned
+  simp only [lit_distance]
+  by_cases h : -(2 : Int) ^ (bits - 1) ≤ w.toInt ∧ w.toInt < (2 : Int) ^ (bits - 1)
+  · simp [h]
+  · rw [if_neg h]
+    simp only [Option.isSome_none]
+    symm
+    rw [Bool.and_eq_false_iff]
+    by_cases h1 : -(2 : Int) ^ (bits - 1) ≤ w.toInt
+    · right; exact decide_eq_false (fun h2 => h ⟨h1, h2⟩)
+    · left; exact decide_eq_false h1
+
+/-- the rest of the pipeline after parsing one statement: resolve against the final table, then
+the specification's word -/
+def finish (tbl' : SymTab) (orig : Word) (line : Nat) (sp : Span) (stmt : Stmt) : Option (List Word) :=
+  ((AsmLine.mk line stmt sp).backpatch tbl').bind fun a' => (specWord orig a').map fun w => [w]
+
+theorem finish_plain (tbl' : SymTab) (orig : Word) (line : Nat) (sp : Span) (stmt : Stmt) (i : Instr)
+    (h1 : stmt.label? = none) (h2 : toSpec orig stmt = some i) :
+    finish tbl' orig line sp stmt = one (some i) (addrOf orig line) := by
+  simp only [finish, AsmLine.backpatch, h1, Option.bind_some, specWord, h2, one]
+
+theorem finish_ref (tbl' : SymTab) (orig : Word) (line : Nat) (sp : Span) (f : Label → Stmt) (g : Word → Instr)
+    (h1 : ∀ l, (f l).label? = some l) (h2 : ∀ l l', (f l).setLabel l' = f l')
+    (h3 : ∀ t, toSpec orig (f (.ref t)) = some (g (addrOf orig t))) (t : Nat) :
+    finish tbl' orig line sp (f (.ref t)) = one (some (g (addrOf orig t))) (addrOf orig line) := by
+  simp only [finish, AsmLine.backpatch, h1, Label.filled, h2, Option.bind_some, specWord, h3, one]
+
+theorem finish_unfilled (tbl' : SymTab) (orig : Word) (line : Nat) (sp : Span) (f : Label → Stmt) (g : Word → Instr)
+    (h1 : ∀ l, (f l).label? = some l) (h2 : ∀ l l', (f l).setLabel l' = f l')
+    (h3 : ∀ t, toSpec orig (f (.ref t)) = some (g (addrOf orig t))) (nm : List Char) :
+    finish tbl' orig line sp (f (.unfilled nm)) =
+      one (((tbl'.get? nm).map (addrOf orig)).map g) (addrOf orig line) := by
+  cases hg : tbl'.get? nm with
+  | none => simp only [finish, AsmLine.backpatch, h1, Label.filled, hg, Option.bind_none, Option.map_none, one]
+  | some v =>
+    simp only [finish, AsmLine.backpatch, h1, Label.filled, hg, h2, Option.bind_some, specWord, h3,
+      Option.map_some, one]
+
+theorem loc_words (names : Nat → List Char) (tbl tbl' : SymTab) (line : Nat) (orig : Word) (sp : Span)
+    (hmono : ∀ n v, tbl.get? n = some v → tbl'.get? n = some v)
+    (lab : Nat → Option Word) (hlab : ∀ id, lab id = (tbl'.get? (names id)).map (addrOf orig))
+    (bits : Nat) (f : Label → Stmt) (g : Word → Instr)
+    (h1 : ∀ l, (f l).label? = some l) (h2 : ∀ l l', (f l).setLabel l' = f l')
+    (h3 : ∀ t, toSpec orig (f (.ref t)) = some (g (addrOf orig t)))
+    (hfit : ∀ a w, (encode (g (a + 1 + w)) a).isSome = fitsSigned bits w) (l : Loc) :
+    one ((l.target lab (addrOf orig line)).map g) (addrOf orig line) =
+      ((locLabel names tbl line bits l).map f).bind (finish tbl' orig line sp) := by
+  cases l with
+  | lit w =>
+    simp only [Loc.target, locLabel, Option.map_some]
+    by_cases hf : fitsSigned bits w = true
+    · simp only [hf, if_true, Option.map_some, Option.bind_some]
+      rw [finish_ref tbl' orig line sp f g h1 h2 h3, lit_target]
+    · simp only [hf, Option.map_none, Option.bind_none, Bool.false_eq_true, if_false]
+      have := hfit (addrOf orig line) w
+      simp only [Bool.not_eq_true] at hf
+      rw [hf] at this
+      simp only [one]
+      cases he : encode (g (addrOf orig line + 1 + w)) (addrOf orig line) with
+      | none => rfl
+      | some x => rw [he] at this; simp at this
+  | label id =>
+    simp only [Loc.target, locLabel, Option.map_some, Option.bind_some, hlab, Label.tryFill]
+    cases hg : tbl.get? (names id) with
+    | none => simp only []; rw [finish_unfilled tbl' orig line sp f g h1 h2 h3]
+    | some v =>
+      simp only []
+      rw [finish_ref tbl' orig line sp f g h1 h2 h3, hmono _ _ hg]
+      rfl
+/-- **AIR → specification, one statement.**  Parse an abstract instruction statement as statement
+number `line` with the symbol table `tbl` of that moment, resolve it against the final table
+`tbl'` (which extends `tbl`), take the specification's word of the result: that is exactly
+`SrcStmt.words` at address `orig + line − 1` with label addresses read off the final table —
+`none` on both sides when an operand does not fit or a label is undefined. -/
+theorem airOf_words (names : Nat → List Char) (tbl tbl' : SymTab) (line : Nat) (orig : Word) (sp : Span)
+    (hmono : ∀ n v, tbl.get? n = some v → tbl'.get? n = some v)
+    (lab : Nat → Option Word) (hlab : ∀ id, lab id = (tbl'.get? (names id)).map (addrOf orig))
+    (s : SrcStmt) (hsyn : (stmtSyntax names s).isSome = true) :
+    s.words lab (addrOf orig line) = (airOf names tbl line s).bind (finish tbl' orig line sp) := by
+  have L := loc_words names tbl tbl' line orig sp hmono lab hlab
+  cases s with
+  | addReg d a r => exact (finish_plain tbl' orig line sp (.add d a (.reg r)) (.addReg d a r) rfl rfl).symm
+  | andReg d a r => exact (finish_plain tbl' orig line sp (.and d a (.reg r)) (.andReg d a r) rfl rfl).symm
+  | addImm d a w =>
+    simp only [SrcStmt.words, airOf]
+    by_cases hf : fitsSigned 5 w = true
+    · simp only [hf, if_true, Option.bind_some]
+      rw [finish_plain tbl' orig line sp _ (.addImm d a ((w.setWidth 8).setWidth 5)) rfl rfl, sw85]
+    · simp only [hf, Bool.false_eq_true, if_false, Option.bind_none]
+  | andImm d a w =>
+    simp only [SrcStmt.words, airOf]
+    by_cases hf : fitsSigned 5 w = true
+    · simp only [hf, if_true, Option.bind_some]
+      rw [finish_plain tbl' orig line sp _ (.andImm d a ((w.setWidth 8).setWidth 5)) rfl rfl, sw85]
+    · simp only [hf, Bool.false_eq_true, if_false, Option.bind_none]
+  | br nzp l =>
+    simp only [stmtSyntax] at hsyn
+    cases hf : flagOf nzp with
+    | none => rw [hf] at hsyn; simp at hsyn
+    | some f =>
+      simp only [SrcStmt.words, airOf, hf]
+      have := L 9 (.branch f) (.br (f.bits.setWidth 3)) (fun _ => rfl) (fun _ _ => rfl) (fun _ => rfl)
+        (by intro a w; simp only [encode, Option.isSome_map, pcField_lit_isSome]) l
+      rw [flagOf_bits hf] at this
+      exact this
+  | jmp b => exact (finish_plain tbl' orig line sp (.jump b) (.jmp b) rfl rfl).symm
+  | jsr l =>
+    exact L 11 .jumpSub .jsr (fun _ => rfl) (fun _ _ => rfl) (fun _ => rfl)
+      (by intro a w; simp only [encode, Option.isSome_map, pcField_lit_isSome]) l
+  | jsrr b => exact (finish_plain tbl' orig line sp (.jumpSubReg b) (.jsrr b) rfl rfl).symm
+  | ld d l =>
+    exact L 9 (.load d) (.ld d) (fun _ => rfl) (fun _ _ => rfl) (fun _ => rfl)
+      (by intro a w; simp only [encode, Option.isSome_map, pcField_lit_isSome]) l
+  | ldi d l =>
+    exact L 9 (.loadInd d) (.ldi d) (fun _ => rfl) (fun _ _ => rfl) (fun _ => rfl)
+      (by intro a w; simp only [encode, Option.isSome_map, pcField_lit_isSome]) l
+  | lea d l =>
+    exact L 9 (.loadEAddr d) (.lea d) (fun _ => rfl) (fun _ _ => rfl) (fun _ => rfl)
+      (by intro a w; simp only [encode, Option.isSome_map, pcField_lit_isSome]) l
+  | st d l =>
+    exact L 9 (.store d) (.st d) (fun _ => rfl) (fun _ _ => rfl) (fun _ => rfl)
+      (by intro a w; simp only [encode, Option.isSome_map, pcField_lit_isSome]) l
+  | sti d l =>
+    exact L 9 (.storeInd d) (.sti d) (fun _ => rfl) (fun _ _ => rfl) (fun _ => rfl)
+      (by intro a w; simp only [encode, Option.isSome_map, pcField_lit_isSome]) l
+  | ldr d b w =>
+    simp only [SrcStmt.words, airOf]
+    by_cases hf : fitsSigned 6 w = true
+    · simp only [hf, if_true, Option.bind_some]
+      rw [finish_plain tbl' orig line sp _ (.ldr d b ((w.setWidth 8).setWidth 6)) rfl rfl, sw86]
+    · simp only [hf, Bool.false_eq_true, if_false, Option.bind_none]
+  | str d b w =>
+    simp only [SrcStmt.words, airOf]
+    by_cases hf : fitsSigned 6 w = true
+    · simp only [hf, if_true, Option.bind_some]
+      rw [finish_plain tbl' orig line sp _ (.str d b ((w.setWidth 8).setWidth 6)) rfl rfl, sw86]
+    · simp only [hf, Bool.false_eq_true, if_false, Option.bind_none]
+  | not d a => exact (finish_plain tbl' orig line sp (.not d a) (.not d a) rfl rfl).symm
+  | ret => exact (finish_plain tbl' orig line sp .ret .ret rfl rfl).symm
+  | rti => exact (finish_plain tbl' orig line sp .interrupt .rti rfl rfl).symm
+  | trap v =>
+    simp only [SrcStmt.words, airOf]
+    by_cases hf : fitsUnsigned 8 v = true
+    · simp only [hf, if_true, Option.bind_some]
+      rw [finish_plain tbl' orig line sp _ (.trap (v.setWidth 8)) rfl rfl]
+    · simp only [hf, Bool.false_eq_true, if_false, Option.bind_none]
+  | namedTrap k => exact (finish_plain tbl' orig line sp (.trap (0b00100#5 ++ k)) (.trap (0b00100#5 ++ k)) rfl rfl).symm
+  | push r => exact (finish_plain tbl' orig line sp (.push r) (.push r) rfl rfl).symm
+  | pop r => exact (finish_plain tbl' orig line sp (.pop r) (.pop r) rfl rfl).symm
+  | call id =>
+    exact L 10 .call .call (fun _ => rfl) (fun _ _ => rfl) (fun _ => rfl)
+      (by intro a w; simp only [encode, Option.isSome_map, pcField_lit_isSome]) (.label id)
+  | rets => exact (finish_plain tbl' orig line sp .rets .rets rfl rfl).symm
+  | fill w => simp [stmtSyntax] at hsyn
+  | blkw n => simp [stmtSyntax] at hsyn
+  | stringz b => simp [stmtSyntax] at hsyn
+
+
 end Lace.C01
